@@ -1,5 +1,7 @@
 mod cmd_lin;
 mod cmd_backend;
+mod cmd_native;
+mod native;
 mod cmd_stages;
 mod cmd_fun2core;
 mod cmd_rt;
@@ -90,6 +92,7 @@ fn main() {
             cmd_backend::cmd_codegen(which, num(2, 1), num(3, 0) as usize, &mut *out, &args[5.min(args.len())..]);
         }
         "c10-x86" => cmd_backend::cmd_c10("x86", num(2, 1), num(3, 0) as usize, &mut *out, &args[5.min(args.len())..]),
+        "native-x86" => cmd_native::cmd_native_x86(num(2, 1), num(3, 0) as usize, &mut *out, &args[5.min(args.len())..]),
         "pm" => cmd_pm(num(2, 1), num(3, 100) as usize, &mut *out),
         "lin-show" => { cmd_lin::cmd_lin_show(num(2, 1)); return; }
         "lin" => cmd_lin::cmd_lin(num(2, 1), num(3, 100) as usize, &mut *out, args.get(5..).unwrap_or(&[])),
